@@ -386,6 +386,17 @@ impl World {
 
     pub fn trace_item(&mut self, item: impl FnOnce() -> String, h: u64) {
         self.trace.push(h);
+        if self.log_on {
+            let s = item();
+            if !s.starts_with("tx ") && !s.starts_with("ev ") && !s.starts_with("epev ") {
+                self.log.push(format!("t={} api {}", fmt_t(self.now), s));
+            }
+            if self.trace_text.is_some() {
+                let s = format!("t={} {}", self.now, s);
+                self.trace_text.as_mut().unwrap().push(s);
+            }
+            return;
+        }
         if self.trace_text.is_some() {
             let s = format!("t={} {}", self.now, item());
             self.trace_text.as_mut().unwrap().push(s);
@@ -645,6 +656,12 @@ impl World {
                     let p = r.p;
                     let dl = r.u8()? as usize;
                     structural.push((p, 1));
+                    if (first >> 4) & 3 == 0 {
+                        // Initial: the DCID selects the Initial keys; with a damaged DCID the
+                        // receiver unmasks the header with the wrong keys and branches on bits
+                        // that come out of the (randomised) ciphertext sample
+                        structural.push((r.p, dl));
+                    }
                     r.take(dl)?;
                     let p = r.p;
                     let sl = r.u8()? as usize;
